@@ -73,6 +73,12 @@ func Serve(sockpath, dbpath string, opts ServeOpts) int {
 		logger.Println("aborting")
 		return 2
 	}
+	if ul, ok := listener.(*net.UnixListener); ok {
+		// The socket file is removed explicitly below, once. Without this,
+		// listener.Close() would unlink the path a second time, by which time
+		// it may already belong to a newly started daemon.
+		ul.SetUnlinkOnClose(false)
+	}
 
 	st, err := store.NewStore(dbpath)
 	if err != nil {
